@@ -105,9 +105,11 @@ package keeper
 //@ func (k Keeper).GetCurrentValidatorsEVMCompatible(ctx) (set, err)
 //@ ensures [never_empty] err == nil ==> len(set) > 0
 //@ ensures [members_present_with_positive_power] err == nil ==> forall j in [0, len(set)) :: set[j] != nil && set[j].Power != 0
+//@ ensures [every_member_carries_the_power_of_a_bonded_validator_with_a_registered_address] err == nil ==> forall j in [0, len(set)) :: exists m in [0, len(ret(GetAllValidators, 0))) :: ret(GetAllValidators, 0)[m].Status == 3 && set[j].Power == ret(GetAllValidators, 0)[m].Tokens / 1000000 && has(bridge.OperatorToEVMAddressMap, ret(GetAllValidators, 0)[m].OperatorAddress)
 //@ ensures [ordered_by_descending_power_then_ascending_address] err == nil ==> forall a in [0, len(set)) :: forall b in [0, len(set)) :: a < b ==> set[a].Power > set[b].Power || (set[a].Power == set[b].Power && bytescmp(set[a].EthereumAddress, set[b].EthereumAddress) <= 0)
 //@ ensures [reads_only] nothing_written()
 //@ loop 0 "for _, validator := range validators"
+//@ loop 0 invariant [members_so_far_carry_the_power_of_a_bonded_validator_with_a_registered_address] forall j in [0, len(bridgeValset)) :: exists m in [0, $i) :: validators[m].Status == 3 && bridgeValset[j].Power == validators[m].Tokens / 1000000 && has(bridge.OperatorToEVMAddressMap, validators[m].OperatorAddress)
 //@ loop 0 invariant [members_so_far_have_positive_power] forall j in [0, len(bridgeValset)) :: allocated(bridgeValset[j]) && bridgeValset[j].Power != 0
 
 //@ func (k Keeper).GetCurrentValidatorSetEVMCompatible(ctx) (vs, err)
